@@ -8,12 +8,23 @@ sys.path.insert(0, os.path.join(VERIF, 'rules'))
 import extract, mirlib
 CRATES = ['tonic', 'tonic_web', 'tonic_health', 'tonic_reflection', 'tonic_types', 'tonic_build']
 out = {c: set() for c in CRATES}
+sigs = {c: {} for c in CRATES}
+fps = {c: {} for c in CRATES}
 cfgs = [('full', None), ('plain', None)] + list(extract.matrix_configs().items())
 for name, cfg in cfgs:
     d, dig, secs = extract.ensure('/repo', VERIF, name, cfg)
     for c, crs in mirlib.load_dir(d, set(CRATES), raw=True).items():
         for cr in crs:
             out[c].update(b['path'] for b in cr['bodies'] if b['kind'] == 'fn')
+            for b in cr['bodies']:
+                if b['kind'] == 'fn':
+                    tys = cr['tys']
+                    sigs[c][b['path']] = [tys[b['locals'][0]], sorted(tys[b['locals'][i]] for i in range(1, b['argc'] + 1))]
+                    fps[c][b['path']] = sorted(mirlib.fingerprint(b))
     print(name, {c: len(v) for c, v in out.items()})
 with open(os.path.join(VERIF, 'spec', 'known_fns.json'), 'w') as fh:
     json.dump({c: sorted(v) for c, v in out.items()}, fh, indent=0)
+with open(os.path.join(VERIF, 'spec', 'known_sigs.json'), 'w') as fh:
+    json.dump(sigs, fh, indent=0)
+with open(os.path.join(VERIF, 'spec', 'known_fps.json'), 'w') as fh:
+    json.dump(fps, fh, indent=0)
